@@ -224,12 +224,15 @@ fn make_node(w: u64, frac_ms: u32, cond: Cond) -> StreamJoinNode {
 }
 
 /// what happens to the siblings of the join under test ("j" = left x right), in words
-const SIBLING_HISTORIES: [&str; 5] = [
+const SIBLING_HISTORIES: [&str; 8] = [
     "register sA(left x other), j; unregister sA before the first arrival",
     "register j, sB(other x right); unregister sB before the first arrival",
     "register sA(left x other), j, sB(other x right); unregister sA after the 1st step and sB after the 2nd",
     "register sC(left x right, its own sink), j; unregister sC after the 1st step",
     "register j, sA(left x other); unregister a join id that was never registered; sA stays",
+    "register j, sD(right x other): the right stream is the left input of a chained join; sD stays",
+    "register sE(other x left), j: the left stream is the right input of a chained join; sE stays",
+    "register j, sF(right x left, crossed, its own sink); unregister sF after the 2nd step",
 ];
 
 fn sibling_node(left: &str, right: &str, w: u64) -> StreamJoinNode {
@@ -303,10 +306,23 @@ impl Driver {
                         reg(&mut m, "j", node, Some(sink.clone()));
                         later = vec![(1, "sC")];
                     }
-                    _ => {
+                    4 => {
                         reg(&mut m, "j", node, Some(sink.clone()));
                         reg(&mut m, "sA", sibling_node("left", "other", c.w), None);
                         m.unregister_join("never-registered");
+                    }
+                    5 => {
+                        reg(&mut m, "j", node, Some(sink.clone()));
+                        reg(&mut m, "sD", sibling_node("right", "other", c.w), None);
+                    }
+                    6 => {
+                        reg(&mut m, "sE", sibling_node("other", "left", c.w), None);
+                        reg(&mut m, "j", node, Some(sink.clone()));
+                    }
+                    _ => {
+                        reg(&mut m, "j", node, Some(sink.clone()));
+                        reg(&mut m, "sF", sibling_node("right", "left", c.w), None);
+                        later = vec![(2, "sF")];
                     }
                 }
                 Driver::Siblings(m, sink, later, 0)
